@@ -464,8 +464,12 @@ func (ex *Exec) instrMods(in ssa.Instruction, li *loopInfo) {
 			switch b.Name() {
 			case "append", "copy":
 				if st, ok := c.Args[0].Type().Underlying().(*types.Slice); ok {
-					n, s := w.ElemArray(st.Elem())
-					li.mods[n] = s
+					if _, isStruct := asStruct(st.Elem()); isStruct {
+						ex.typeMods(st.Elem(), li)
+					} else {
+						n, s := w.ElemArray(st.Elem())
+						li.mods[n] = s
+					}
 				}
 			case "delete", "clear":
 				if mt, ok := c.Args[0].Type().Underlying().(*types.Map); ok {
